@@ -38,6 +38,10 @@ theorem headToks_key (ind : Nat) (tag : List Char) (blk : Bool) (so so' : Nat) :
     (headToks ind tag blk so).map wkey = (headToks ind tag blk so').map wkey := by
   cases blk <;> simp [headToks, wkey]
 
+theorem closeToks_key (ind : Nat) (tag : List Char) (blk : Bool) (eo eo' : Nat) :
+    (closeToks ind tag blk eo).map wkey = (closeToks ind tag blk eo').map wkey := by
+  cases blk <;> simp [closeToks, wkey]
+
 mutual
 theorem keys_fix_items : ∀ (o : OT) (ind : Nat),
     (OT.toksL ind (OT.fixL false o.itemsOf)).map wkey = (OT.toksL ind o.itemsOf).map wkey
@@ -53,7 +57,8 @@ theorem keys_fixL : ∀ (xs : List OT) (alc : Bool) (ind : Nat),
     have h1 := keys_fix_items (.node arm tag blk ty so eo fields items) (ind + 1)
     simp only [OT.itemsOf] at h1
     simp only [OT.fixL, OT.toksL, OT.toks, List.map_append, keys_fixL rest false ind, h1,
-      headToks_key ind tag blk (bumpOff alc so) so]
+      headToks_key ind tag blk (bumpOff alc so) so,
+      closeToks_key ind tag blk (OT.fixEo blk eo fields (OT.fixL false items)) eo]
 end
 
 theorem TSim.fixL {lx : LexEnv} {ts : List PTok} {items : List OT} {ind : Nat} (h : TSim lx ts (OT.toksL ind items))
